@@ -50,7 +50,8 @@ INTW = {'b': 1, 'B': 1, 'h': 2, 'H': 2, 'l': 4, 'L': 4, 'i': 4, 'I': 4, 'q': 8, 
 
 def rval(rng, code):
     if code in 'efd':
-        return rng.choice([0.0, -0.0, 1.0, -2.5, 0.1, 6.1e-5, 5.96e-8, 65504.0, float('inf'), float('-inf'), 1e-310 if code == 'd' else 1e-40, rng.uniform(-1000, 1000)])
+        edge = {'e': [65504.0, 65505.0, -65510.0, 65519.99], 'f': [3.4028234663852886e38, 3.4028235e38, -3.402823466385289e38, 3.4028235677973362e38], 'd': [1.7976931348623157e308, -1.7976931348623157e308]}[code]
+        return rng.choice([0.0, -0.0, 1.0, -2.5, 0.1, 6.1e-5, 5.96e-8, 65504.0, float('inf'), float('-inf'), 1e-310 if code == 'd' else 1e-40, rng.uniform(-1000, 1000)] + edge)
     w = 8 * INTW[code]
     lo, hi = (-(1 << (w - 1)), (1 << (w - 1)) - 1) if code.islower() else (0, (1 << w) - 1)
     return rng.choice([lo, hi, 0, 1, lo + 1, hi - 1, rng.randrange(lo, hi + 1)])
@@ -72,6 +73,10 @@ def gen_cases(rng, tier):
     for _ in range(N // 3):
         code = rng.choice(CODES)
         yield {'op': 'array', 'code': code, 'pre': rng.choice(['=', '>', '<', '=']), 'vals': [rval(rng, code) for _ in range(rng.randrange(0, 6))], 'other': rng.choice(CODES)}
+    for _ in range(60 if tier == 'quick' else 1000):
+        code = rng.choice('hHlLiIqQ')
+        v = rval(rng, code)
+        yield {'op': 'adopt', 'code': code, 'pre': rng.choice('<=@'), 'v': v, 'how': rng.choice(['kw', 'setattr', 'array']), 'edit': rng.choice(['byteswap', 'invert', 'append', 'reverse'])}
     for _ in range(N // 2):
         nb = rng.randrange(1, 10)
         yield {'op': 'endian', 'bits': rand_bits(rng, 8 * nb), 'fmt': rng.choice([None, 0, 1, 2, nb, [1, 2], 'h', '2h', 'q', 'bh']), 'cls': rng.choice(MUTABLE)}
@@ -89,6 +94,23 @@ def run_impl(c):
             p = pack(c['fmt'], *c['vals'])
             vals = p.unpack(c['fmt'])
             return [list(p.tobytes()), [fhex(v) if isinstance(v, float) else v for v in vals], len(p)]
+        return attempt(f)
+    if op == 'adopt':
+        w = 8 * INTW[c['code']]
+        name = ('int' if c['code'].islower() else 'uint') + ('le' if c['pre'] == '<' else 'ne')
+        def f():
+            if c['how'] == 'kw': x = BitArray(**{name: c['v'], 'length': w})
+            elif c['how'] == 'setattr':
+                x = BitArray(w); setattr(x, name, c['v'])
+            else:
+                x = Array(c['pre'] + c['code'], [c['v']]).data
+            first = list(x.tobytes())
+            if c['edit'] == 'byteswap': x.byteswap()
+            elif c['edit'] == 'invert': x.invert()
+            elif c['edit'] == 'append': x.append('0xff')
+            else: x.reverse()
+            fmt = c['pre'] + c['code']
+            return [first, list(pack(fmt, c['v']).tobytes()), list(Array(fmt, [c['v']]).tobytes()), list(BitArray(**{name: c['v'], 'length': w}).tobytes()), pack(fmt, c['v']).unpack(fmt)]
         return attempt(f)
     if op == 'array':
         def f():
@@ -155,6 +177,14 @@ def oracle(c, obs):
             return f"pack({c['fmt']!r}, {c['vals']}).bytes = {bytes(obs[1][0]).hex()} but struct.pack gives {bytes(exp).hex()}"
         back = [fhex(v) if isinstance(v, float) else v for v in struct.unpack(c['fmt'], bytes(exp))]
         if obs[1][1] != back: return f"unpack({c['fmt']!r}) gave {obs[1][1]}, struct.unpack gives {back}"
+        return None
+    if op == 'adopt':
+        if obs[0] != 'ok': return f"{c} raised {obs}"
+        exp = list(struct.pack(c['pre'].replace('@', '=') + c['code'], c['v']))
+        o = obs[1]
+        if any(x != exp for x in o[:4]) or o[4] != [c['v']]:
+            return (f"{c['pre'] + c['code']} value {c['v']}: a mutable bitstring made from it was edited in place ({c['edit']}); afterwards pack / Array / BitArray give "
+                    f"{[bytes(x).hex() for x in o[:4]]} and unpack gives {o[4]}; struct.pack gives {bytes(exp).hex()}")
         return None
     if op == 'array':
         if obs[0] != 'ok': return f"Array {c} raised {obs}"
